@@ -237,6 +237,15 @@ def eval_expr(v, leaf):
     if k == 'call' and v[1] in ('unwrap_or', 'unwrap_or_default', 'unwrap_or_else') and len(v) > 3 and v[3]:
         # `a.checked_op(b).unwrap_or(d)`: the exact result, or d where it does not fit the type
         inner = strip(v[3][0])
+        if isinstance(inner, tuple) and inner and inner[0] == 'call' and inner[1] in ('checked_div', 'checked_rem') and len(inner[3]) == 2:
+            a, b = eval_expr(inner[3][0], leaf), eval_expr(inner[3][1], leaf)
+            if a is None or b is None:
+                return None
+            if b != 0:
+                return a // b if inner[1] == 'checked_div' else a % b
+            if v[1] == 'unwrap_or' and len(v[3]) > 1:
+                return eval_expr(v[3][1], leaf)
+            return 0 if v[1] == 'unwrap_or_default' else None
         if isinstance(inner, tuple) and inner and inner[0] == 'call' and inner[1] in ('checked_add', 'checked_sub', 'checked_mul') and len(inner[3]) == 2:
             import re as _re
             a, b = eval_expr(inner[3][0], leaf), eval_expr(inner[3][1], leaf)
@@ -288,6 +297,28 @@ def eval_expr(v, leaf):
                 return min(a + b, (1 << bits) - 1)
         return {'saturating_add': a + b, 'wrapping_add': a + b, 'saturating_sub': max(a - b, 0), 'min': min(a, b), 'max': max(a, b)}[v[1]]
     return None
+
+
+def chunk_bound_ok(expr, maxp):
+    """`expr` is the per-chunk element allowance MAX_PREALLOCATION / size_of::<T>() (usize::MAX for zero-sized T), however
+    it is computed (`checked_div(..).unwrap_or(MAX)`, a match on the size, an if): decided by evaluating it for a range of
+    element sizes"""
+    if not isinstance(maxp, int) or not (0 < maxp <= 16 * 1024):
+        return False
+    for sz in (0, 1, 2, 3, 7, 8, 16, 24, 1000, 16384, 16385, 10 ** 6):
+        def leaf(x, sz=sz):
+            x = strip(x)
+            if isinstance(x, tuple) and x and x[0] == 'call' and x[1] == 'size_of' and not x[3]:
+                return sz
+            return None
+        try:
+            got = eval_expr(expr, leaf)
+        except ArithPanic:
+            return False
+        want = (2 ** 64 - 1) if sz == 0 else maxp // sz
+        if got != want:
+            return False
+    return True
 
 
 def abstract_helpers(t, names):
